@@ -6,9 +6,9 @@ use crate::prng::Rng;
 use serde::{Deserialize, Serialize};
 use std::collections::VecDeque;
 
-pub const NS: [usize; 6] = [0, 1, 2, 3, 5, 8];
+pub const NS: [usize; 7] = [0, 1, 2, 3, 5, 8, 33];
 pub const OBJ_CAP: usize = 6;
-pub const ID_CAP: u32 = 160;
+pub const ID_CAP: u32 = 260;
 pub const N_CLOSURES: u8 = 3;
 pub const N_SHAPES: u8 = 18;
 
@@ -78,6 +78,8 @@ pub enum FOp {
     CopyScenario { n: usize, front: usize, back: usize },
     /// self-contained: zero-sized Drop element, counts only
     ZstScenario { n: usize, front: usize, back: usize, clone: bool },
+    /// self-contained: 64-byte, 64-aligned Drop element (size/alignment-dependent bookkeeping)
+    BigScenario { n: usize, front: usize, back: usize, clone: bool },
 }
 
 impl FOp {
@@ -115,6 +117,7 @@ impl FOp {
             HDrop { .. } => 29,
             CopyScenario { .. } => 30,
             ZstScenario { .. } => 31,
+            BigScenario { .. } => 32,
         }
     }
 }
@@ -546,7 +549,7 @@ impl Model {
                 self.exp[id as usize] = (1, 1);
                 Exp::Unit
             }
-            CopyScenario { n, .. } | ZstScenario { n, .. } => {
+            CopyScenario { n, .. } | ZstScenario { n, .. } | BigScenario { n, .. } => {
                 if NS.contains(n) {
                     Exp::Unit
                 } else {
@@ -600,7 +603,7 @@ pub fn generate(rng: &mut Rng, cfg: &GenCfg) -> FCase {
     let w_misc = *rng.pick(&[0u32, 1, 2]);
     let sizes: Vec<usize> = {
         let k = rng.range(1, NS.len());
-        (0..k).map(|_| *rng.pick(&NS)).collect()
+        (0..k).map(|_| if rng.chance(1, 12) { 33 } else { *rng.pick(&NS[..6]) }).collect()
     };
     let max_steps = if thorough { 160 } else { 56 };
     let steps = rng.range(4, max_steps);
@@ -616,10 +619,10 @@ pub fn generate(rng: &mut Rng, cfg: &GenCfg) -> FCase {
                 0
             }
         };
-        let weights: [u32; 31] = [
+        let weights: [u32; 32] = [
             6, w_cons, 1, w_cons * 2, w_cons * 2, w_cons / 2 + 1, 1, w_cons / 2, 1, 2, w_cons / 2, w_misc, // 0..=11
             w_builder, w_builder * 3, w_builder / 2 + 1, 1, w_builder / 2, 1, w_builder, 1, w_builder / 3, w_misc, // 12..=21
-            2, w_macro * 2, w_macro, w_macro, w_macro / 2, w_destr * 2, 3, w_misc, w_misc, // 22..=30
+            2, w_macro * 2, w_macro, w_macro, w_macro / 2, w_destr * 2, 3, w_misc, w_misc, w_misc, // 22..=31
         ];
         let op = match rng.weighted(&weights) {
             0 => FOp::NewArray { n },
@@ -652,7 +655,8 @@ pub fn generate(rng: &mut Rng, cfg: &GenCfg) -> FCase {
             27 => FOp::Destructure { shape: rng.below(N_SHAPES as u64) as u8 },
             28 => FOp::HDrop { t: rng.below(8) as usize },
             29 => FOp::CopyScenario { n, front: rng.below(5) as usize, back: rng.below(5) as usize },
-            _ => FOp::ZstScenario { n, front: rng.below(5) as usize, back: rng.below(5) as usize, clone: rng.chance(1, 2) },
+            30 => FOp::ZstScenario { n, front: rng.below(5) as usize, back: rng.below(5) as usize, clone: rng.chance(1, 2) },
+            _ => FOp::BigScenario { n, front: rng.below(5) as usize, back: rng.below(5) as usize, clone: rng.chance(1, 2) },
         };
         // armed fault indices are drawn relative to the real container size where known
         let op = match op {
@@ -729,6 +733,9 @@ pub fn sweep_cases() -> Vec<(String, FCase)> {
             build_prefix.push(FOp::BPush { o: 0, t: 0 });
         }
         for k in 1..=(n as u32 + 1) {
+            if n > 8 && ![1, 2, 17, 32, 33, 34].contains(&k) {
+                continue;
+            }
             let mut p = cons_prefix.clone();
             p.push(FOp::CClone { o: 0, fault: k });
             p.push(FOp::CAsSlice { o: 0 });
